@@ -85,6 +85,91 @@ theorem runTicks_idle (n : Nat) : ∀ (s : State), (∀ k, k < n → Idle s.mode
       have e : s.dots + 4 + 4 * k = s.dots + 4 * (k + 1) := by omega
       simp only [e]; exact this
 
+/-! ### mode 2 → 3 set-up -/
+
+/-- window branch of `enterMode3` (first tile drawn is the window's) -/
+def enterWin (s : State) : Except Panic State := do
+  let firstWindowPixel := 7 - s.cfg.windowX
+  let s := { s with nextTileX := 0 }
+  let s ← cacheNextWindowTileRow s vram
+  pure { s with tileCache := (s.tileCache <<< (firstWindowPixel * 2)) % 65536 }
+
+/-- BG branch of `enterMode3` -/
+def enterBg (s : State) : Except Panic State := do
+  let s := { s with nextTileX := (s.cfg.scrollX >>> 3) % 32 }
+  let s ← cacheNextTileRow s vram
+  let fineScrollX := s.cfg.scrollX &&& 7
+  pure { s with tileCache := (s.tileCache <<< (fineScrollX * 2)) % 65536 }
+
+theorem enterMode3_eq (s : State) :
+    enterMode3 s vram =
+      (let useWindow := !(!s.cfg.windowEnabled || decide (s.line < s.cfg.windowY))
+       let s1 : State := { s with windowLine := if useWindow then some (s.line - s.cfg.windowY) else none }
+       if useWindow && decide (s.cfg.windowX ≤ 7) then enterWin vram s1 else enterBg vram s1) := rfl
+
+theorem enterWin_inv (r : Ppu.Regs) (hr : RegsOk r) (hv : vram.size = 8192) (hvb : IsBytes vram) (ly : Nat)
+    (s1 : State) (hc : s1.cfg = Cfg.ofRegs r) (hl : s1.line = ly) (hs : srcWin r ly 0 = true) :
+    enterWin vram s1 = .ok { s1 with nextTileX := (tcol r ly 0 + 1) % 32,
+                                     tileCache := (trow r vram ly 0 <<< (2 * tpos r ly 0)) % 65536 } := by
+  have hle : r.wx ≤ 7 := by
+    simp only [srcWin, Bool.and_eq_true, decide_eq_true_eq] at hs; omega
+  have hwx : s1.cfg.windowX = r.wx := by rw [hc]; rfl
+  have e1 : tpos r ly 0 = 7 - r.wx := by unfold tpos; rw [hs]; simp only [if_true]; omega
+  have e2 : tcol r ly 0 = 0 := by unfold tcol; rw [hs]; simp only [if_true]; omega
+  have e3 : trow r vram ly 0 = winRowM r vram ly 0 := by unfold trow; rw [hs, e2]; simp only [if_true]
+  simp only [enterWin]
+  rw [cacheNextWindowTileRow_ok r hr vram hv hvb ({ s1 with nextTileX := 0 } : State) ly hc hl (by show (0:Nat) < 32; omega)]
+  rw [e1, e2, e3, hwx, Nat.mul_comm 2]
+  simp only [bind, Except.bind, pure, Except.pure]
+
+theorem enterBg_inv (r : Ppu.Regs) (hr : RegsOk r) (hv : vram.size = 8192) (hvb : IsBytes vram) (ly : Nat)
+    (s1 : State) (hc : s1.cfg = Cfg.ofRegs r) (hl : s1.line = ly) (hs : srcWin r ly 0 = false) :
+    enterBg vram s1 = .ok { s1 with nextTileX := (tcol r ly 0 + 1) % 32,
+                                    tileCache := (trow r vram ly 0 <<< (2 * tpos r ly 0)) % 65536 } := by
+  have hscx : s1.cfg.scrollX = r.scx := by rw [hc]; rfl
+  have e1 : tpos r ly 0 = r.scx &&& 7 := by unfold tpos; rw [hs, and7]; simp
+  have e2 : tcol r ly 0 = (r.scx >>> 3) % 32 := by unfold tcol; rw [hs, shr3]; simp
+  have e3 : trow r vram ly 0 = bgRowM r vram ly ((r.scx >>> 3) % 32) := by
+    unfold trow; rw [hs, e2]; simp only [Bool.false_eq_true, if_false]
+  simp only [enterBg]
+  rw [cacheNextTileRow_ok r hr vram hv hvb ({ s1 with nextTileX := (s1.cfg.scrollX >>> 3) % 32 } : State) ly hc hl
+    (by show (s1.cfg.scrollX >>> 3) % 32 < 32; exact Nat.mod_lt _ (by decide))]
+  rw [e1, e2, e3, Nat.mul_comm 2]
+  simp only [hscx, bind, Except.bind, pure, Except.pure]
+
+/-- the set-up at the end of mode 2 establishes the loop invariant at pixel 0 -/
+theorem enterMode3_inv (r : Ppu.Regs) (hr : RegsOk r) (hv : vram.size = 8192) (hvb : IsBytes vram) (ly : Nat)
+    (s0 : State) (hc : s0.cfg = Cfg.ofRegs r) (hl : s0.line = ly) (hw : s0.writing.size = 23040) (hp : s0.objPix = 8) :
+    ∃ s', enterMode3 s0 vram = .ok s' ∧ LineInv r vram oam ly s0 0 s' ∧ Pipe r vram ly 0 s' (tpos r ly 0) := by
+  have hwe : s0.cfg.windowEnabled = (Cfg.ofRegs r).windowEnabled := by rw [hc]
+  have hwy : s0.cfg.windowY = r.wy := by rw [hc]; rfl
+  have hwx : s0.cfg.windowX = r.wx := by rw [hc]; rfl
+  have huse : (!(!s0.cfg.windowEnabled || decide (s0.line < s0.cfg.windowY))) = active r ly := by
+    rw [hwe, hwy, hl]; unfold active
+    cases (Cfg.ofRegs r).windowEnabled
+    · rfl
+    · simp only [Bool.not_true, Bool.false_or, Bool.true_and]
+      by_cases h : ly < r.wy
+      · have : ¬ r.wy ≤ ly := by omega
+        simp [h, this]
+      · have : r.wy ≤ ly := by omega
+        simp [h, this]
+  have hcond : (active r ly && decide (r.wx ≤ 7)) = srcWin r ly 0 := rfl
+  rw [enterMode3_eq]
+  simp only [huse, hwx, hcond]
+  have hwl : (if active r ly = true then some (s0.line - s0.cfg.windowY) else none).isSome = active r ly := by
+    cases active r ly <;> rfl
+  generalize (if active r ly = true then some (s0.line - s0.cfg.windowY) else none) = wl at hwl
+  cases hs : srcWin r ly 0
+  · simp only [Bool.false_eq_true, if_false]
+    rw [enterBg_inv vram r hr hv hvb ly ({ s0 with windowLine := wl } : State) hc hl hs]
+    exact ⟨_, rfl, ⟨hc, hl, hw, rfl, (by show s0.objPix = 8 + 0; rw [hp]), hwl, rfl, rfl, rfl, fun j hj => by omega, fun _ _ => rfl,
+      Nat.mod_lt _ (by decide)⟩, ⟨rfl, rfl, rfl⟩⟩
+  · simp only [if_true]
+    rw [enterWin_inv vram r hr hv hvb ly ({ s0 with windowLine := wl } : State) hc hl hs]
+    exact ⟨_, rfl, ⟨hc, hl, hw, rfl, (by show s0.objPix = 8 + 0; rw [hp]), hwl, rfl, rfl, rfl, fun j hj => by omega, fun _ _ => rfl,
+      Nat.mod_lt _ (by decide)⟩, ⟨rfl, rfl, rfl⟩⟩
+
 /-! ### the forty drawing steps of a line -/
 
 /-- the mode-3 drawing steps `k, k+1, …` (`n` of them): `previous_dot_count = 4k` -/
@@ -144,5 +229,34 @@ theorem drawTicks_inv (r : Ppu.Regs) (hr : RegsOk r) (hv : vram.size = 8192) (hv
     have hd1 : s1.dots = 4 * (k + 1) := by rw [inv1.dots]; show s.dots + 4 = _; omega
     obtain ⟨s', h2, inv2⟩ := ih (k + 1) s1 { base with dots := s.dots + 4 } (by omega) hco hm1 hd1 inv1 hp1
     exact ⟨s', by simp only [runTicks, ht, h1, bind, Except.bind]; exact h2, inv2⟩
+
+/-! ### the remaining arms of `tick` -/
+
+theorem tick_m0_next (s : State) (hm : s.mode = .m0) (hd : s.dots + 4 ≥ 188) (hl : s.line < 143) (cache : Array Nat)
+    (hf : findCurrentLineSprites s.cfg vram oam (s.line + 1) = .ok cache) :
+    tick s vram oam = .ok { s with dots := s.dots + 4 - 188, line := s.line + 1, mode := .m2, objCache := cache, objPix := 8 } := by
+  simp only [tick, hm, hd, hl, if_true, hf, bind, Except.bind, pure, Except.pure]
+
+theorem tick_m0_vblank (s : State) (hm : s.mode = .m0) (hd : s.dots + 4 ≥ 188) (hl : ¬ s.line < 143) :
+    tick s vram oam = .ok { s with dots := s.dots + 4 - 188, line := 144, mode := .m1,
+                                   visible := s.writing, writing := s.visible } := by
+  simp only [tick, hm, hd, hl, if_true, if_false, pure, Except.pure]
+
+theorem tick_m1_wrap (s : State) (hm : s.mode = .m1) (hd : s.dots + 4 ≥ 456) (hl : s.line < 153) :
+    tick s vram oam = .ok { s with dots := s.dots + 4 - 456, line := s.line + 1 } := by
+  simp only [tick, hm, hd, hl, if_true, pure, Except.pure]
+
+theorem tick_m1_last (s : State) (hm : s.mode = .m1) (hd : s.dots + 4 ≥ 456) (hl : ¬ s.line < 153) (cache : Array Nat)
+    (hf : findCurrentLineSprites s.cfg vram oam 0 = .ok cache) :
+    tick s vram oam = .ok { s with dots := s.dots + 4 - 456, line := 0, mode := .m2, objCache := cache, objPix := 8 } := by
+  simp only [tick, hm, hd, hl, if_true, if_false, hf, bind, Except.bind, pure, Except.pure]
+
+theorem runTicks_then (a b : Nat) (s s1 : State) (h : runTicks vram oam a s = .ok s1) :
+    runTicks vram oam (a + b) s = runTicks vram oam b s1 := by
+  rw [runTicks_add, h]; rfl
+
+theorem runTicks_one (s : State) : runTicks vram oam 1 s = tick s vram oam := by
+  simp only [runTicks, bind, Except.bind, pure, Except.pure]
+  cases tick s vram oam <;> rfl
 
 end GbVerif.PpuFrame
